@@ -40,6 +40,7 @@ def plan(tier, seed):
               {"bfs": {"names": ["a", "b", "a", "b", "a"], "depth": 4}, "random": 0, "maxops": 0},
               {"bfs": {"names": ["a", "a", "a", "b"], "depth": 5}, "random": 0, "maxops": 0}]
     shards += [{"bfs": None, "random": 500, "maxops": 2000, "salt": i} for i in range(13)]
+    shards.append({"bfs": None, "random": 0, "maxops": 0, "repo_tests": True})
     return shards
 
 
@@ -397,6 +398,10 @@ def random_history(ctx, n_nodes, n_ops, hist_no):
 
 
 def run(ctx, params):
+    if params.get("repo_tests"):
+        from vlib import repotests
+        repotests.run(ctx, PROPERTY)
+        return
     if params["bfs"]:
         with ctx.guard(3000.0):
             bfs(ctx, params["bfs"]["names"], params["bfs"]["depth"])
@@ -411,6 +416,12 @@ def finish(merged):
 
 
 def replay(ctx, witness):
+    if "repo_test" in witness:
+        from vlib import repotests
+        repotests.run(ctx, PROPERTY)
+        ctx.distinct(1)
+        ctx.distinct(2)
+        return
     names = witness["names"]
     nodes, label = fresh_nodes(names)
     f = Forest(names)
